@@ -29,6 +29,7 @@ type Environment struct {
 	function  *Function
 	registers [NumRegisters]int64
 	numReg    int
+	funcGen   int64 // bumped when a top level function binding is replaced or deleted (memoized results may be stale).
 }
 
 // Truly empty store suitable for macros storage.
@@ -273,6 +274,7 @@ func (e *Environment) Delete(name string) Object {
 		e.numSet++
 	}
 	if _, ok := e.store[name]; ok {
+		e.noteRebind(name, nil)
 		delete(e.store, name)
 		log.Debugf("Delete(%s) found at %d %v", name, e.depth, e.cacheKey)
 		return TRUE
@@ -334,12 +336,36 @@ func (e *Environment) IsRef(name string) (*Environment, string) {
 	return nil, ""
 }
 
+// noteRebind records that name is about to be re-bound (or deleted when val is nil) in e: if this replaces a
+// top level function, results memoized through it are stale.
+func (e *Environment) noteRebind(name string, val Object) {
+	if e.depth != 0 {
+		return
+	}
+	old, ok := e.store[name]
+	if !ok {
+		return
+	}
+	if old.Type() == FUNC || (val != nil && val.Type() == FUNC) {
+		e.funcGen++
+	}
+}
+
+// FuncGeneration changes each time a top level function binding was replaced or deleted.
+func (e *Environment) FuncGeneration() int64 {
+	for e.outer != nil {
+		e = e.outer
+	}
+	return e.funcGen
+}
+
 func (e *Environment) create(name string, val Object) Object {
 	if e.depth == 0 {
 		e.numSet++
 		record(e.ids, name, val.Type())
 	}
 	val = Value(val)
+	e.noteRebind(name, val)
 	e.store[name] = val
 	return val
 }
@@ -354,6 +380,7 @@ func (e *Environment) update(name string, found, val Object) Object {
 		e = rr.RefEnv
 		name = rr.Name
 	}
+	e.noteRebind(name, val)
 	e.store[name] = val
 	if e.depth == 0 {
 		e.numSet++
@@ -375,6 +402,7 @@ func (e *Environment) SetNoChecks(name string, val Object, create bool) Object {
 	// New name... let's see if it's really new or making it a ref.
 	if ref, ok := e.makeRef(name); ok {
 		log.Debugf("SetNoChecks(%s) created ref %s in %d", name, ref.Name, ref.RefEnv.depth)
+		ref.RefEnv.noteRebind(ref.Name, val)
 		ref.RefEnv.store[ref.Name] = Value(val) // kinda neat to make aliases but it can create loops, so not for now.
 		return val
 	}
